@@ -354,6 +354,86 @@ def file_gen(tier):
     return gen
 
 
+# big files: sizes and read requests around the module's internal buffer (4096) and multiples of it
+BIG_SIZES = [4095, 4096, 4097, 8191, 8192, 8193, 10000]
+BIG_READS = [1, 4095, 4096, 4097, 8192, 8193, 9000, 20000]
+
+
+def big_content(size, text):
+    if text:
+        return bytes((33 + (i * 7 + i // 95) % 90) for i in range(size))          # printable, no line break, no NUL
+    return bytes(((i * 7 + 3) % 251) for i in range(size))
+
+
+def bigfile_gen(tier):
+    def gen():
+        n = 0
+        sizes = BIG_SIZES if tier == "thorough" else [4096, 4097, 8193, 10000]
+        for size in sizes:
+            for text in (False, True):
+                data = big_content(size, text)
+                for nreq in BIG_READS:
+                    path = os.path.join(sdir(), "b-%d-%d.bin" % (os.getpid(), n % 64))
+                    var, init = ("sv", '""') if text else ("xv", "raw()")
+                    prog = ('import file; f = file(path, "w"); n1 = f.write(c); cl = f.close(); g = file(path, "r"); %s = %s; k = g.read(%s, %d); '
+                            'rest = %s; k2 = g.read(rest, 100000); cl2 = g.close(); first = %s;' % (var, init, var, nreq, init, var))
+                    ops = ["isolate", op_ctx(0, True), "rmfile %s" % hx(path), op_setvar("PATH", "s" + path.encode().hex()),
+                           op_setvar("C", ("s" if text else "x") + data.hex()), op_run(prog), op_dump(0, "N1,K,K2,FIRST,REST")]
+                    yield Case("b%d" % n, ops, {"kind": "bigfile", "size": size, "text": text, "nreq": nreq, "path": path})
+                    n += 1
+                # one long line, then a short one
+                if text:
+                    path = os.path.join(sdir(), "b-%d-%d.bin" % (os.getpid(), n % 64))
+                    content = data + b"\ntail\n"
+                    # readln hands a long line back in chunks (documented: ended by LF or limited by the internal buffer): nothing may be lost
+                    prog = ('import file; f = file(path, "w"); n1 = f.write(c); cl = f.close(); g = file(path, "r"); acc = ""; cnt = 0; piece = ""; longest = 0; '
+                            'while g.readln(piece) loop acc.concat(piece); cnt = cnt + 1; longest = max(longest, piece.count()); if cnt > 60 then break; end if; end loop; '
+                            'cl2 = g.close();')
+                    ops = ["isolate", op_ctx(0, True), "rmfile %s" % hx(path), op_setvar("PATH", "s" + path.encode().hex()),
+                           op_setvar("C", "s" + content.hex()), op_run(prog), op_dump(0, "N1,ACC,CNT,LONGEST")]
+                    yield Case("b%d" % n, ops, {"kind": "bigline", "size": size, "path": path})
+                    n += 1
+    return gen
+
+
+def check_big(case, res, vs):
+    m = case.meta
+    st = res["steps"]
+    run, dump = st[-2], st[-1].get("vars", {})
+    if run.get("r") != "ok":
+        vs.append(Violation("file:big:failed", "%s: %s" % (m, run), case))
+        return vs, True
+    if m["kind"] == "bigline":
+        content = big_content(m["size"], True) + b"\ntail\n"
+        acc = sval(dump.get("ACC"))
+        if acc != ("s", content):
+            got = acc[1] if acc[0] == "s" else b""
+            vs.append(Violation("file:big:readln", "a line of %d bytes and a short one read back by readln in %s pieces: %d bytes instead of %d (first difference at %s)" % (
+                m["size"], dump.get("CNT"), len(got), len(content), next((i for i in range(min(len(got), len(content))) if got[i] != content[i]), "length")), case))
+        return vs, True
+    data = big_content(m["size"], m["text"])
+    tag = "s" if m["text"] else "x"
+    want_first = data[:m["nreq"]]
+    first, rest = sval(dump.get("FIRST")), sval(dump.get("REST"))
+    where = "file of %d bytes, read(%s, %d)" % (m["size"], "string" if m["text"] else "bytes", m["nreq"])
+    if sval(dump.get("N1")) != ("i", len(data)):
+        vs.append(Violation("file:big:write-count", "%s: write returned %s" % (where, dump.get("N1")), case))
+    if first != (tag, want_first) or sval(dump.get("K")) != ("i", len(want_first)):
+        got = first[1] if first[0] == tag else b""
+        vs.append(Violation("file:big:read:%s" % ("string" if m["text"] else "bytes"), "%s returned %s and %d bytes, expected %d (first difference at %s)" % (
+            where, dump.get("K"), len(got), len(want_first), next((i for i in range(min(len(got), len(want_first))) if got[i] != want_first[i]), "length")), case))
+    elif rest != (tag, data[m["nreq"]:]) and not (len(data) <= m["nreq"]):
+        vs.append(Violation("file:big:read-rest", "%s then read(100000): %d bytes, expected %d" % (where, len(rest[1]) if rest[0] == tag else -1, len(data) - m["nreq"]), case))
+    try:
+        with open(m["path"], "rb") as f:
+            ondisk = f.read()
+    except OSError:
+        ondisk = None
+    if ondisk is not None and ondisk != data:
+        vs.append(Violation("file:big:independent-reader", "%s: the file holds %d bytes, %d were written" % (where, len(ondisk), len(data)), case))
+    return vs, True
+
+
 class Twin:
     """The same operations on a plain byte buffer with POSIX semantics (what unbuffered I/O would do)."""
     def __init__(self, mode):
@@ -729,6 +809,8 @@ def check(case, res):
         return check_utf8(case, res, vs)
     if k == "file":
         return check_file(case, res, vs)
+    if k in ("bigfile", "bigline"):
+        return check_big(case, res, vs)
     if k == "sql":
         return check_sql(case, res, vs)
     return check_lattice(case, res, vs)
@@ -739,7 +821,7 @@ def run(tier):
     deadline = t0 + (3000 if tier == "thorough" else 420)
     build.ensure("asan", bins=("vdrv",))
     total = Result()
-    for name, g in (("csv", csv_gen(tier)), ("utf8", utf8_gen(tier)), ("file", file_gen(tier)), ("sqlite3", sql_gen(tier)), ("lattice", lattice_gen(tier))):
+    for name, g in (("csv", csv_gen(tier)), ("utf8", utf8_gen(tier)), ("file", file_gen(tier)), ("bigfile", bigfile_gen(tier)), ("sqlite3", sql_gen(tier)), ("lattice", lattice_gen(tier))):
         total.merge(explore("%s-%s-%s" % (PROP, tier, name), g, check, chunk=60, deadline=deadline))
     rule = ("csv: all rows of 1 field (length <=%d), 2 fields, 3 short fields over {a, space, separator, quote, LF, CR} x 4 formats, one-shot and line by line; "
             "utf8: all byte strings of length <=%d over 16 class bytes x positions; file: all sequences of <=%d operations x 6 open modes against a twin; "
